@@ -79,7 +79,8 @@ FLOORS = {
 
 # ======================================================================== generation
 
-_UTT_POOL = ["a", "b", "c", "utt1", "utt2", "utt10", "x-1", "k.d", "Z", "m_n"]
+# ids that end in characters of the usual suffix (".pt") next to their own stems, ids ending in a dot
+_UTT_POOL = ["a", "b", "c", "utt1", "utt2", "utt10", "x-1", "k.d", "Z", "m_n", "ta", "tap", "at", "x.", "p", "utt1.p"]
 
 
 def _feat(rng, T, F, dtype):
